@@ -500,6 +500,38 @@ func C06(e *core.Env) {
 			res.Count("stream=constant-clock")
 		}
 	}
+	// a data text the decoder rejects far from its end (a source file sent by mistake, a body damaged in the middle), then the valid
+	// pair again: the report of the valid pair must be the same bytes as before, every time, in this process
+	{
+		p, d := PoolProfileLevels, thingData
+		ref, err := pkg.ValidateWithConfiguration(p, d, false, nil, clockA, c06Configs[0])
+		if err == nil {
+			garbage := []string{
+				"#%RAML 1.0\ntitle: sent by mistake\n" + strings.Repeat("/resource:\n  get:\n    description: not JSON at all\n", 60),
+				"{\"@id\": \"http://example.org/d#a\", \"broken\": here " + strings.Repeat("{\"k\": [1, 2, 3], \"more\": \"text that follows the damage\"} ", 40),
+				"[1, 2, " + strings.Repeat("x", 3000),
+			}
+			for round := 0; round < 12; round++ {
+				g := garbage[round%len(garbage)]
+				_, gerr := pkg.ValidateWithConfiguration(p, g, false, nil, clockA, c06Configs[0])
+				o, err := pkg.ValidateWithConfiguration(p, d, false, nil, clockA, c06Configs[0])
+				if err != nil {
+					o = "error: " + err.Error()
+				}
+				if gerr == nil || o != ref {
+					what := "the report of a valid (profile, data) pair differs after a call whose data text was rejected far from its end"
+					if gerr == nil {
+						what = "a data text that is not JSON got a report"
+					}
+					res.Violate("impl-violates-property", what, map[string]any{"profile": p, "data": d, "rejected_data_before": core.Trunc(g, 400), "rejected_data_length": len(g), "round": round,
+						"first_diff_line": firstDiff(ref, o), "mode": "valid pair after a rejected text, same process"})
+					break
+				}
+				res.Case(fmt.Sprintf("after-rejected-text|%d", round), true)
+				res.Count("stream=after-rejected-text")
+			}
+		}
+	}
 	res.Unmodelled = []string{"determinism of yaml.v3, json-gold (blank-node naming, sorted keys), OPA (set ordering) and encoding/json (sorted keys) is measured across processes, not proved",
 		"Go's randomised map iteration and goroutine scheduling are exercised by the repetitions; the theorems cover the owned loops (classified range sites) and the counter"}
 }
